@@ -474,8 +474,16 @@ func (g *c09Gen) action() bool {
 		if g.b("chainidx") {
 			outer, inner = ast.Idx(ast.Mem(base.Clone(), "list"), ast.Num("0")), ast.Idx(ast.Mem(base.Clone(), "list"), ast.Num("2"))
 		}
+		if g.n(0, 3, "chainself") == 0 {
+			// the inner assignment puts a scalar where the outer target needs a container:
+			// the outer store is then a store of a member on a scalar
+			inner = base.Clone()
+			label = "store-below-a-scalar-made-by-the-right-hand-side"
+		}
 		stmts = append(stmts, ast.ExprS(ast.Set(ast.Id("tmp"), ast.Num("0"))), ast.ExprS(ast.Set(outer, ast.Set(inner, g.scalar()))))
-		label = "two-stores-below-one-missing-intermediate"
+		if label == "" {
+			label = "two-stores-below-one-missing-intermediate"
+		}
 	case k == 24:
 		// a store below the value returned by a function: the result of a call is a
 		// value, not a place in the container the function read it from
@@ -621,6 +629,27 @@ func c09PureCheck(c *C09Pure) (string, bool) {
 	if o.Class == "panic" {
 		return "panic: " + o.Panic, true
 	}
+	if o.Class == "runtime" && len(c.Prog.C) == 1 && c.Prog.C[0].K == "rule" && c.Prog.C[0].C[1] != nil && len(c.Prog.C[0].C[1].C) > 1 {
+		// one of the reads fails (comparing containers, calling null, ...): keep the reads that
+		// succeed on their own and look at the document after those
+		var keep []*ast.Node
+		for _, st := range c.Prog.C[0].C[1].C {
+			one := ast.Prog(ast.Rule("pattern", nil, ast.Block(st.Clone())))
+			if r := run.InProc(ast.Source(one), []run.InFile{{Name: "in", Data: []byte(c.Doc)}}, nil, run.Opts{Budget: implBudget}); r.Class == "ok" {
+				keep = append(keep, st.Clone())
+			} else if r.Class == "panic" {
+				return "panic: " + r.Panic, true
+			}
+		}
+		if len(keep) == 0 {
+			return "", false
+		}
+		src = ast.Source(ast.Prog(ast.Rule("pattern", nil, ast.Block(keep...))))
+		o = run.InProc(src, []run.InFile{{Name: "in", Data: []byte(c.Doc)}}, nil, run.Opts{Budget: implBudget, WantRoot: true})
+		if o.Class == "panic" {
+			return "panic: " + o.Panic, true
+		}
+	}
 	if o.Class != "ok" {
 		return "", false // the expression failed: nothing to compare
 	}
@@ -636,7 +665,7 @@ func c09PureCheck(c *C09Pure) (string, bool) {
 		return "GetRootJson is not JSON: " + err.Error(), true
 	}
 	if !jsonx.Equal(got, want) {
-		return fmt.Sprintf("a program without assignments changed the document\n input:  %s\n output: %s", jsonx.Compact(want), jsonx.Compact(got)), true
+		return fmt.Sprintf("a program without assignments changed the document\n input:  %s\n output: %s\nprogram:\n%s", jsonx.Compact(want), jsonx.Compact(got), src), true
 	}
 	return "", true
 }
